@@ -14,6 +14,8 @@ encoding-table checksums and decoded glyph text after every operation of generat
 Only property theorems live here; helper lemmas are in `Lemmas/Process.lean`.
 -/
 import PdfVerif.Lemmas.Process
+import PdfVerif.Lemmas.ProcGlobals
+import PdfVerif.Lemmas.ProcObjCache
 
 namespace PdfVerif.Props.C12
 open PdfVerif PdfVerif.Process
@@ -351,5 +353,152 @@ example : ((run W0 (init W0) hist0).tables.cmaps.map (·.1), (run W0 (init W0) h
 example : ((alookup 2 (run W0 (init W0) hist0).handles).map
     (fun h => (h.c.objs.map (·.1), h.c.pobjs.map (·.1), h.c.fonts.map (·.1)))) =
     some ([11, 4, 3, 9, 10, 2, 1], [9], [3]) := by decide
+
+/-! ## Round 6: the process-wide state that extraction only reads, as explicit global state
+
+`ProcGlobals.Globals` = interned literal / keyword tables, `PREDEFINED_COLORSPACE`, `FONT_METRICS`,
+`settings.STRICT` (initial values regenerated from the Python sources); `renderPage` = `render_contents`
+(`init_resources`, `init_state`, `execute`) for one page, `renderCall` = one interpreter over several pages,
+`runHistory` = calls one after the other in one process. -/
+
+section Globals
+open PdfVerif.ProcGlobals
+
+/-- intern is idempotent: asking again returns the same symbol and does not change the table -/
+theorem C12_intern_idempotent (t : List Nat) (n : Nat) : intern (intern t n).2 n = intern t n :=
+  intern_idem t n
+
+/-- intern is monotone: the table only grows at the end, and every name that was in it keeps its
+symbol — also over a whole sequence of further interning -/
+theorem C12_intern_monotone (t names : List Nat) :
+    (∃ e, internAll t names = t ++ e) ∧
+    (∀ k i, find k t = some i → find k (internAll t names) = some i) :=
+  ⟨internAll_prefix names t, fun _ _ h => internAll_stable names h⟩
+
+/-- lookups after any history equal lookups in a fresh process, as far as a symbol can be observed:
+the symbol returned for `a` has the name `a` (whatever table `t` the history produced), and a symbol
+obtained later — after any further interning `hist` — is the same object iff the names are equal -/
+theorem C12_intern_identity (t : List Nat) (a b : Nat) (hist : List Nat) :
+    nameOf (intern t a).2 (intern t a).1 = some a ∧
+    ((intern (internAll (intern t a).2 hist) b).1 = (intern t a).1 ↔ a = b) :=
+  ⟨intern_name t a, intern_inj t a b hist⟩
+
+/-- every modelled operation leaves PREDEFINED_COLORSPACE, FONT_METRICS and STRICT unchanged, and lets the
+interned tables only grow at the end — for ALL histories of calls -/
+theorem C12_globals_unchanged (g : Globals) (hist : List (List GPage)) :
+    (runHistory g hist).static = g.static ∧
+    (∃ e, (runHistory g hist).lits = g.lits ++ e) ∧ (∃ e, (runHistory g hist).kwds = g.kwds ++ e) :=
+  ⟨runHistory_static hist g, runHistory_grow hist g⟩
+
+/-- a read of the process-wide tables after any history = the same read in a fresh process -/
+theorem C12_globals_lookup_history (g : Globals) (hist : List (List GPage)) (k : Nat) :
+    metricsOf (runHistory g hist) k = metricsOf g k ∧
+    ProcGlobals.alookup k (runHistory g hist).colorspaces = ProcGlobals.alookup k g.colorspaces ∧
+    (runHistory g hist).strict = g.strict := by
+  obtain ⟨h1, h2, h3⟩ := static_eq (runHistory_static hist g)
+  exact ⟨by unfold metricsOf; rw [h2], by rw [h1], h3⟩
+
+/-- per-page reset: the state a page ends in (colour-space map, current colour spaces, text state, saved
+graphics states, raised-or-not) does not depend on what the previous page left behind, nor on which names
+have been interned so far -/
+theorem C12_page_state_reset (g g' : Globals) (left left' : PState) (pg : GPage) (h : g.static = g'.static) :
+    (renderPage g left pg).1 = (renderPage g' left' pg).1 :=
+  renderPage_indep left left' pg h
+
+/-- page results are independent of the set and order of the pages processed before, in the same call
+and in earlier calls: every page of a call after any history = that page rendered alone in a fresh process -/
+theorem C12_page_state_history (g : Globals) (hist : List (List GPage)) (call : List GPage) :
+    (renderCall (runHistory g hist) PState.init call).1 = call.map (fun pg => (renderPage g PState.init pg).1) := by
+  rw [renderCall_pages]
+  apply List.map_congr_left
+  intro pg _
+  exact renderPage_indep PState.init PState.init pg (runHistory_static hist g)
+
+/-- proved counter-example for the broken discipline `csmap = PREDEFINED_COLORSPACE` (no copy): a page whose
+resources redefine `/DeviceGray` as a 3-component ICC space changes the default colour space of the NEXT page -/
+theorem cs_nocopy_cex :
+    let g := G0 [] []
+    let pgA : GPage := ⟨[(0, .icc 3)], []⟩
+    let pgB : GPage := ⟨[], [.Tc 5]⟩
+    (renderPage g PState.init pgB).1.scs = some (0, 1) ∧
+    (renderPage (renderPage g PState.init pgA).2 PState.init pgB).1.scs = some (0, 1) ∧
+    (renderPage (renderPageNoCopy g PState.init pgA).2 PState.init pgB).1.scs = some (ICCBASED, 3) := by
+  decide
+
+/-- non-vacuity: interning really grows the table, keeps identities, and re-finds old names -/
+example : intern [7, 9] 4 = (2, [7, 9, 4]) ∧ intern [7, 9, 4] 9 = (1, [7, 9, 4]) ∧
+    internAll [7] [9, 7, 4, 9] = [7, 9, 4] := by decide
+
+def exP1 : GPage := ⟨[(2000, .named 4), (2001, .devicen 2)], [.Tc 3, .TL 14, .q, .Tz 90, .cs 2000, .CS 2001, .Tf 2002 12]⟩
+def exP2 : GPage := ⟨[], [.Q, .Tw 2, .cs 2000, .unknown 1000]⟩
+
+/-- non-vacuity: a call of two pages; page 1 sets text state, saves it, changes colour spaces through its own
+`/CS0`; page 2 (no resources, a stray `Q`) starts from `PDFTextState()` and DeviceGray again; the tables grew -/
+example :
+    (renderCall (G0 [2000] [7]) PState.init [exP1, exP2]).1.map
+        (fun s => (s.ts, s.scs, s.ncs, s.gstack.length, s.csmap.length)) =
+      [(⟨12, 3, 0, 90, -14, 0, 0⟩, some (DEVICEN, 2), some (4, 3), 1, 11),
+       (⟨0, 0, 2, 100, 0, 0, 0⟩, some (0, 1), some (0, 1), 0, 9)] ∧
+    (renderCall (G0 [2000] [7]) PState.init [exP1, exP2]).2.lits = [2000, 2001, 2002] ∧
+    (renderCall (G0 [2000] [7]) PState.init [exP1, exP2]).2.kwds = [7, 0, 3, 2, 9, 10, 6, 8, 1, 1000] ∧
+    (renderCall (G0 [2000] [7]) PState.init [exP1, exP2]).2.static = (G0 [2000] [7]).static := by
+  refine ⟨?_, ?_, ?_, ?_⟩ <;> decide
+
+/-- `rg` selects `csmap["DeviceRGB"]` of the PAGE: a page whose resources redefine `/DeviceRGB` as a 4-component
+ICC space gets that one — and the next page, without such resources, the predefined 3-component space again -/
+example : ((renderCall (G0 [] []) PState.init
+      [⟨[(Gen.ProcGlobals.IDX_DEVICERGB, .icc 4)], [.dev false 1, .dev true 2]⟩, ⟨[], [.dev false 1]⟩]).1.map
+      (fun s => (s.scs, s.ncs))) =
+    [(some (5, 4), some (ICCBASED, 4)), (some (0, 1), some (4, 3))] := by decide
+
+/-- non-vacuity of the STRICT branch: under `STRICT` the undefined colour space stops the page -/
+example : (renderPage { G0 [] [] with strict := true } PState.init ⟨[], [.Tc 3, .cs 2000, .Tw 9]⟩).1.err = true ∧
+    (renderPage { G0 [] [] with strict := true } PState.init ⟨[], [.Tc 3, .cs 2000, .Tw 9]⟩).1.ts.wordspace = 0 ∧
+    (renderPage { G0 [] [] with strict := true } PState.init ⟨[], [.Tc 3, .cs 2000, .Tw 9]⟩).2.kwds = [0, 9] := by
+  decide
+
+/-- the regenerated tables: 9 predefined colour spaces with DeviceGray first, 26 FONT_METRICS entries, STRICT off -/
+example : (G0 [] []).colorspaces.length = 9 ∧ (G0 [] []).colorspaces.head? = some (0, (0, 1)) ∧
+    (G0 [] []).strict = false ∧ metricsOf (G0 [] []) 0 = some (314, 188400) ∧ metricsOf (G0 [] []) 26 = none := by
+  decide
+
+end Globals
+
+/-! ## Round 6: `PDFDocument.getobj` and its cache as a refinement of the pure function (bytes, objid) ↦ object,
+with mutable containers (`Model/ProcObjCache.lean`) -/
+
+section ObjCacheSection
+open PdfVerif.ObjCache
+
+/-- the object cache refines the pure parse function: after ANY history of callers that read or copy before
+they change anything (pdfminer's own discipline), with caching on or off, `getobj n` hands out a value
+equal to a fresh parse of object `n` -/
+theorem C12_getobj_refines_parse (parse : Nat → Option (List Nat)) (caching : Bool) (hist : List ObjCache.Op)
+    (h : ∀ op ∈ hist, op.inPlace = false) (n : Nat) :
+    (ObjCache.step parse caching (ObjCache.run parse caching St.init hist) (.get n)).2 = parse n :=
+  getobj_value caching n (run_inv caching hist h (inv_init parse))
+
+/-- without the cache (`caching=False`) that holds for EVERY history, in-place changes by callers included:
+every `getobj` is a fresh parse -/
+theorem C12_getobj_nocache_pure (parse : Nat → Option (List Nat)) (hist : List ObjCache.Op) (n : Nat) :
+    (ObjCache.step parse false (ObjCache.run parse false St.init hist) (.get n)).2 = parse n :=
+  getobj_value false n (inv_of_nocache (run_nocache hist rfl))
+
+/-- proved counter-example: `getobj` returns the cached container itself, NOT a copy — a caller that changes it
+in place changes what every later `getobj` of that object returns (with the cache on; off, it is fresh again).
+pdfminer's extraction code never does this (`cache_inv` on the implementation, checked at every close); user code
+calling `doc.getobj` could. -/
+theorem getobj_alias_cex :
+    let parse : Nat → Option (List Nat) := fun n => if n = 5 then some [5] else none
+    ObjCache.outputs parse true St.init [.get 5, .mutInPlace 5 99, .get 5] = [some [5], some [5], some [5, 99]] ∧
+    ObjCache.outputs parse false St.init [.get 5, .mutInPlace 5 99, .get 5] = [some [5], some [5], some [5]] ∧
+    ObjCache.outputs parse true St.init [.get 5, .copyMut 5 99, .get 5] = [some [5], some [5], some [5]] := by
+  decide
+
+/-- non-vacuity: the cache is really used (object 5 is parsed once: one heap cell for two reads, plus the copy) -/
+example : ObjCache.run (fun n => if n = 5 then some [5] else none) true St.init [.get 5, .copyMut 5 7, .get 5, .get 6] =
+    ⟨[[5], [5, 7]], [(5, 0)]⟩ := by decide
+
+end ObjCacheSection
 
 end PdfVerif.Props.C12
